@@ -9,7 +9,7 @@ from lib.runner import Stage, Violation, hyp_drive
 RULE = ("finite multisets of valid cells, res -1..29: (1) complete enumeration of all antichains of a bounded sub-hierarchy "
         "spanning every aperture (108,109 quick / 7,184,269 thorough) plus every input order of the small ones; (2) Hypothesis "
         "antichains by recursive split/keep/drop with deep grafts, with ancestor/descendant overlaps, permuted and with "
-        "duplicates; (3) atheris (thorough). Oracle: union of res-29 leaf intervals (refids.interval) of compact(X) equals "
+        "duplicates; (3) long contiguous same-resolution runs with lengths at and around powers of 4 (up to 4096) and starts aligned to 4^j; (4) atheris (thorough). Oracle: union of res-29 leaf intervals (refids.interval) of compact(X) equals "
         "that of X; when the expansion is <= 20k cells also literally set(uncompact(compact(X),R)) == set(uncompact(X,R)). "
         "Non-trivial = X holds a complete sibling group or an ancestor/descendant overlap; distinct by the input list.")
 ASSUMPTIONS = ["documented id layout is the specification (refids.interval)"]
@@ -129,6 +129,50 @@ def cases():
         lambda cs: {"cells": [hex(c) for c in cs]})
 
 
+@st.composite
+def long_runs(draw):
+    """Contiguous same-resolution runs (a filled region as a sorted listing would give it): lengths at and around
+    powers of 4 up to 4096, starts aligned to 4^j for a random j, optional gap / extra cell / shuffle."""
+    k = draw(st.integers(1, 5))
+    span = min(6, k + draw(st.integers(0, 2)))            # the pool is usually larger than the run
+    base = draw(gens.cell_ids(1, 29 - span))
+    r = refids.res_of(base) + span
+    pool = refids.children(base, r)                       # 4^span consecutive cells
+    n = len(pool)
+    length = min(n, max(1, 4 ** k + draw(st.sampled_from([0, 0, 0, -1, 1, 3, 4]))))
+    if draw(st.integers(0, 5)) == 0:
+        length = draw(st.integers(1, n))
+    j = draw(st.integers(0, k))
+    start = (draw(st.integers(0, max(0, (n - length)))) // 4 ** j) * 4 ** j
+    run = pool[start:start + length]
+    mode = draw(st.integers(0, 5))
+    if mode == 0 and len(run) > 2:
+        del run[draw(st.integers(0, len(run) - 1))]
+    elif mode == 1:
+        run.append(refids.parent(run[0], max(0, r - 2)))
+    if draw(st.booleans()):
+        run = list(draw(st.permutations(run))) if len(run) <= 64 else run[::-1]
+    return run
+
+
+def stage_runs(ctx):
+    def judge_run(case, col):
+        cells = [int(x, 16) for x in case["cells"]]
+        judge_cells(cells, case, literal=len(cells) <= 300)
+        col.case({"n": len(cells), "first": case["cells"][0], "last": case["cells"][-1]}, nontrivial=has_complete_group(cells),
+                 classes=("long_run", "run_len>=1024" if len(cells) >= 1024 else "run_len<1024"))
+    hyp_drive(ctx, long_runs().map(lambda cs: {"cells": [hex(c) for c in cs]}), judge_run, 120 if ctx.tier == "quick" else 4000)
+
+
+def stage_blocks(ctx):
+    def judge_blk(case, col):
+        cells = [int(x, 16) for x in case["cells"]]
+        judge_cells(cells, case, literal=False)
+        col.case({"n": len(cells), "first": case["cells"][0], "h": hash(tuple(cells)) & 0xFFFFFFFF}, nontrivial=has_complete_group(cells),
+                 classes=("block_refinement",))
+    hyp_drive(ctx, gens.orderings(gens.block_refinements()).map(lambda cs: {"cells": [hex(c) for c in cs]}), judge_blk, 100 if ctx.tier == "quick" else 3000)
+
+
 def stage_hyp(ctx):
     hyp_drive(ctx, cases(), judge, 700 if ctx.tier == "quick" else 20000)
 
@@ -161,7 +205,7 @@ def stage_fuzz(ctx):
 
 
 def plan(tier):
-    s = [Stage("enum", 16, stage_enum, cost=10), Stage("hyp", 16, stage_hyp, cost=6)]
+    s = [Stage("enum", 16, stage_enum, cost=10), Stage("hyp", 16, stage_hyp, cost=6), Stage("runs", 16, stage_runs, cost=6), Stage("blocks", 16, stage_blocks, cost=6)]
     if tier == "thorough":
         s.append(Stage("fuzz", 4, stage_fuzz, cost=6))
     return s
